@@ -9,4 +9,38 @@ theorem writeAll_noErr (l : List String) (k : Nat) : writeAll l k none = (l.map 
 
 theorem code_le_two (e : Exit) : e.code ≤ 2 := by cases e <;> simp [Exit.code]
 
+
+/-- the write loop with an I/O error at the e-th notedownSrc (counted from k): the outputs before it are written -/
+theorem writeAll_err (l : List String) : ∀ (k e : Nat), k ≤ e →
+    writeAll l k (some e) = if e - k < l.length then ((l.take (e - k)).map .write, true) else (l.map .write, false) := by
+  induction l with
+  | nil => intro k e _; simp [writeAll]
+  | cons f r ih =>
+    intro k e hke
+    by_cases hek : e = k
+    · subst hek; simp [writeAll]
+    · have h1 : (some e == some k) = false := by simpa using hek
+      have hlt : k + 1 ≤ e := by omega
+      simp only [writeAll, h1, Bool.false_eq_true, ↓reduceIte, ih (k + 1) e hlt]
+      have : e - k = (e - (k + 1)) + 1 := by omega
+      by_cases hl : e - (k + 1) < r.length
+      · have hl' : e - k < (f :: r).length := by simp; omega
+        rw [if_pos hl, if_pos hl', this]
+        simp
+      · have hl' : ¬ (e - k < (f :: r).length) := by simp; omega
+        rw [if_neg hl, if_neg hl']
+        simp
+
+/-- in every case the write loop writes a prefix of the outputs -/
+theorem writeAll_prefix (l : List String) (err : Option Nat) :
+    ∃ j, (writeAll l 0 err).1 = (l.take j).map .write ∧ ((writeAll l 0 err).2 = false → j = l.length) := by
+  cases err with
+  | none => exact ⟨l.length, by simp [writeAll_noErr], fun _ => rfl⟩
+  | some e =>
+    rw [writeAll_err l 0 e (Nat.zero_le _)]
+    simp only [Nat.sub_zero]
+    by_cases h : e < l.length
+    · exact ⟨e, by simp [h], by simp [h]⟩
+    · exact ⟨l.length, by simp [h], fun _ => rfl⟩
+
 end ShootVerif.Phases
